@@ -101,6 +101,22 @@ func bitStr(b bool) string {
 	return "0"
 }
 
+// ecdsaIndependent verifies (r, s) for the full message digest with a verifier independent of /repo:
+// the math/big secp256k1 verifier of secp.go, resp. crypto/ecdsa on elliptic.P256; both apply the
+// standard leftmost-bits truncation of the digest themselves.
+func ecdsaIndependent(curve string, pkx, pky *big.Int, digest []byte, r, s *big.Int) bool {
+	if pkx == nil || pky == nil {
+		return false
+	}
+	switch curve {
+	case "k256":
+		return secpECDSAVerify(pt{x: pkx, y: pky}, digest, r, s)
+	case "p256":
+		return ecdsa.Verify(&ecdsa.PublicKey{Curve: elliptic.P256(), X: pkx, Y: pky}, digest, r, s)
+	}
+	return false
+}
+
 func evalDkls(idx int, k kase, o *outcome) {
 	v := strings.Split(k.Variant, ",")
 	if len(v) != 3 {
@@ -136,15 +152,7 @@ func evalDkls(idx int, k kase, o *outcome) {
 		h := hf()
 		h.Write(msg)
 		digest := h.Sum(nil)
-		ok := false
-		switch curve {
-		case "k256":
-			ok = secpECDSAVerify(pt{x: res.PKX, y: res.PKY}, digest, res.Sig.R, res.Sig.S)
-		case "p256":
-			pub := &ecdsa.PublicKey{Curve: elliptic.P256(), X: res.PKX, Y: res.PKY}
-			ok = ecdsa.Verify(pub, digest, res.Sig.R, res.Sig.S)
-		}
-		if !ok {
+		if !ecdsaIndependent(curve, res.PKX, res.PKY, digest, res.Sig.R, res.Sig.S) {
 			fail("independent-verifier-rejects", fmt.Sprintf("r=%s s=%s pk=(%s,%s)", vh.ZHex(res.Sig.R), vh.ZHex(res.Sig.S), vh.ZHex(res.PKX), vh.ZHex(res.PKY)))
 		}
 		// a different message must not verify (exactly that message)
